@@ -328,3 +328,110 @@ LEMMAS = {
                doc='code-buffer budget: frame + 32 bytes x maximal program size fits before the SuperscalarHash routine; 8 maximal SuperscalarHash programs fit before the epilogue; dataset-init calls the routine where the JIT puts it',
                bound='all programs (per-instruction maxima from J1/S4)', symbolic='-', stubs=['arithmetic on sizes extracted from the current build']),
 }
+
+# ------------------------------------------------------------------------------------------------ J5: compiled dataset initialiser
+def run_J5(ctx, case):
+    """randomx_dataset_init (assembly) + randomx_sshash_init + the code generateSuperscalarHash emits for a program list + the load/prefetch templates,
+    executed under x86sem for a symbolic cache and symbolic item range, vs spec 7.3 with the instruction semantics of spec 6.1"""
+    from lemmas.sshash import kind_numbers, spec_ss, KINDS
+    q = Q(120); mod = Module(ctx['ll']['jitlib']); syms = ctx['asm']['syms']; KN = kind_numbers(); npaths = [0]; variant = case['variant']
+    NP = P.CACHE_ACCESSES
+    # program list of this variant: per program a short list of (kind, dst, src) with symbolic imm32/mod, and its address register
+    plans = []
+    for k in range(NP):
+        ks = [KINDS[(variant * 5 + 3 * k + j) % len(KINDS)] for j in range(case['len'])]
+        ins = []
+        for j, kd in enumerate(ks):
+            d = (k + 2 * j + variant) % 8; s_ = (d + 1 + j) % 8
+            if kd == 'IADD_RS' and d == 5: d = 6; s_ = 7
+            if s_ == d: s_ = (d + 1) % 8
+            ins.append((kd, d, s_))
+        plans.append((ins, (3 * k + variant) % 8))
+    item0 = z3.BitVec('startItem', 32); count = z3.BitVec('itemCount', 32)
+    def one(fk):
+        it = Interp(mod); it.fork = fk; fk['pc'] += [z3.ULE(z3.ZeroExt(32, item0) + z3.ZeroExt(32, count), (P.DATASET_BASE + P.DATASET_EXTRA) // 64), z3.UGE(count, 1), z3.ULE(count, 2)]      # the range lies inside the dataset (D2 guarantees it for every call the library makes)
+        F = flagbits(); H = life.Heap(it, fail=False); cxxlib.install(it, H); life.bind_templates(it, ctx); life.run_ctors(it, mod)
+        tj = resolve(NamedT('class.randomx::JitCompilerX86', mod)); oj = tj.layout()[0]
+        J = it.mem.alloc(tj.size(), 'J'); it.call('_ZN7randomx14JitCompilerX86C2Ev', [J]); code = it.mem.load(Ptr('J', oj[2]), 8)
+        tp = resolve(NamedT('class.randomx::SuperscalarProgram', mod)); po = tp.layout()[0]
+        progs = it.mem.alloc(NP * tp.size(), 'programs'); imms = {}; rcps = []
+        for k, (ins, ar) in enumerate(plans):
+            base = k * tp.size(); it.mem.store(Ptr('programs', base + po[1]), len(ins), 4); it.mem.store(Ptr('programs', base + po[2]), ar, 4)
+            for j, (kd, d, s_) in enumerate(ins):
+                imm = z3.BitVec('imm_%d_%d' % (k, j), 32); mo = z3.BitVec('mod_%d_%d' % (k, j), 8); imms[(k, j)] = (imm, mo)
+                if kd == 'IMUL_RCP': rcps.append(z3.BitVec('rcp_%d_%d' % (k, j), 64)); immv = len(rcps) - 1
+                else: immv = imm
+                if kd == 'IROR_C': fk['pc'] += [z3.UGE(imm, 1), z3.ULE(imm, 63)]
+                for b_, v in enumerate((KN[kd], d, s_, mo)): it.mem.store(Ptr('programs', base + 8 * j + b_), v, 1)
+                it.mem.store(Ptr('programs', base + 8 * j + 4), immv, 4)
+        it.mem.alloc(24, 'rcpvec'); it.mem.alloc(8 * max(1, len(rcps)), 'rcpbuf')
+        for n_, v in enumerate(rcps): it.mem.store(Ptr('rcpbuf', 8 * n_), v, 8)
+        it.mem.store(Ptr('rcpvec', 0), Ptr('rcpbuf', 0), 8); it.mem.store(Ptr('rcpvec', 8), Ptr('rcpbuf', 8 * len(rcps)), 8); it.mem.store(Ptr('rcpvec', 16), Ptr('rcpbuf', 8 * len(rcps)), 8)
+        it.call('_ZN7randomx14JitCompilerX8623generateSuperscalarHashERSt5arrayINS_18SuperscalarProgramELm8EERSt6vectorImSaImEE', [J, progs, Ptr('rcpvec', 0)])
+        it.call('_ZN7randomx14JitCompilerX8623generateDatasetInitCodeEv', [J])
+        # ---- machine: randomx_dataset_init(cache*, dataset ptr, startItem, endItem)   (System V)
+        mem = it.mem; CACHE = P.ARGON_MEMORY * 1024
+        mem.mkarr('cachemem', CACHE); C0 = mem.objs['cachemem']['arr']; mem.alloc(64, 'cacheobj'); mem.store(Ptr('cacheobj', 0), Ptr('cachemem', 0), 8)
+        loads = []
+        def cache_load(off, nbytes):      # cut point: 8 bytes read from the read-only cache at a recorded address
+            v = z3.BitVec('cacheword%d' % len(loads), 8 * nbytes); loads.append((bv(off, 64), nbytes, v)); return v
+        mem.symload['cachemem'] = cache_load
+        mem.watch['cachemem'] = lambda p_, n_: (_ for _ in ()).throw(Fault('the dataset initialiser writes to the cache'))
+        DS = P.DATASET_BASE + P.DATASET_EXTRA; mem.mkarr('dataset', DS); D0 = mem.objs['dataset']['arr']
+        STK = 520; mem.alloc(STK + 64, 'stack')
+        for k in range(0, STK + 64, 8): mem.store(Ptr('stack', k), z3.BitVec('stk%d' % k, 64), 8)
+        mem.store(Ptr('stack', STK), Ptr('caller', 0), 8)
+        m = Machine(mem, code.obj, it); saved = {r_: z3.BitVec('callee_saved_%d' % r_, 64) for r_ in (3, 5, 12, 13, 14, 15)}
+        for r_ in range(16): m.gpr[r_] = z3.BitVec('g%d_entry' % r_, 64)
+        for r_, v in saved.items(): m.gpr[r_] = v
+        dsoff = z3.ZeroExt(32, item0) * 64
+        m.gpr[7] = Ptr('cacheobj', 0); m.gpr[6] = Ptr('dataset', dsoff); m.gpr[2] = z3.ZeroExt(32, item0); m.gpr[1] = z3.ZeroExt(32, item0 + count); m.gpr[4] = Ptr('stack', STK)
+        tag = 'dataset_init variant %d' % variant
+        def chk(c, what):
+            q.n += 1; q.unsat += bool(c); q.sat += (not c)
+            if not c: q.failed.append(('%s: %s' % (tag, what), {}))
+        try:
+            r = m.run(0, max_steps=4000)
+        except (Undecodable, Fault, OOB) as e:
+            chk(False, 'compiled dataset initialiser does not execute: %s' % e); return
+        npaths[0] += 1; pc = fk['pc']
+        chk(r[0] == 'ret' and isinstance(r[1], Ptr) and r[1].obj == 'caller', 'returns to the caller')
+        # ---- spec 7.3 for each item of the range (the number of items on this path is decided by the path condition)
+        sol = z3.Solver(); sol.add(*pc); sol.check(); nitems = sol.model().eval(count, model_completion=True).as_long()
+        q.prove(pc, count == nitems, '%s: this path initialises exactly %d item(s)' % (tag, nitems))
+        consts = [6364136223846793005, 9298411001130361340, 12065312585734608966, 9306329213124626780, 5281919268842080866, 10536153434571861004, 3398623926847679864, 9549104520008361294]
+        B = lambda v: z3.BitVecVal(v, 64); exp = D0; rc = iter(rcps)
+        for n_ in range(nitems):
+            itemno = z3.ZeroExt(32, item0) + n_
+            rr = [(itemno + 1) * B(consts[0])]; rr += [rr[0] ^ B(c) for c in consts[1:]]; ci = itemno; rcl = list(rcps); ri = 0
+            for k, (ins, ar) in enumerate(plans):
+                off = (ci & (CACHE // 64 - 1)) * 64
+                for j, (kd, d, s_) in enumerate(ins):
+                    imm, mo = imms[(k, j)]
+                    if kd == 'IMUL_RCP': rv = rcl[ri]; ri += 1
+                    else: rv = None
+                    rr = list(rr); rr[d] = spec_ss(kd, rr, d, s_, imm, mo, rv)
+                mine = loads[8 * (n_ * NP + k):8 * (n_ * NP + k) + 8]
+                okl = len(mine) == 8 and all(nb_ == 8 for (_, nb_, _) in mine); q.n += 1; q.unsat += okl; q.sat += (not okl)
+                if not okl: q.failed.append(('%s: item %d, program %d: does not read 8 words of one cache line' % (tag, n_, k), {})); return
+                for w, (aoff, nb_, sym) in enumerate(mine): q.prove_eq(pc, aoff, off + 8 * w, '%s: item %d program %d: cache word %d read at 64*(cacheIndex mod lines)+%d' % (tag, n_, k, w, 8 * w), 64)
+                rr = [rr[w] ^ mine[w][2] for w in range(8)]
+                ci = rr[ar]
+            for w in range(8):
+                for b_ in range(8): exp = z3.Store(exp, dsoff + 64 * n_ + 8 * w + b_, z3.Extract(8 * b_ + 7, 8 * b_, rr[w]))
+        q.prove_array_eq(pc, mem.objs['dataset']['arr'], exp, '%s: dataset after the call == spec 7.3 items at memory+64*item, nothing else written' % tag)
+        chk(len(loads) == 8 * NP * nitems, 'exactly %d cache words read' % (8 * NP * nitems))
+        for r_, v in saved.items(): q.prove_eq(pc, m.gpr[r_], v, '%s: callee-saved register %d restored' % (tag, r_), 64)
+        chk(isinstance(m.gpr[4], Ptr) and m.gpr[4].obj == 'stack' and m.gpr[4].off == STK + 8, 'stack pointer restored')
+        extent_checks(q, pc, m.mem, tag)
+    res, nq = explore(one, limit=16); q.n += nq
+    ok = npaths[0] >= 2; q.n += 1; q.unsat += ok; q.sat += (not ok)
+    if not ok: q.failed.append(('dataset_init: expected a 1-item and a 2-item path, got %d path(s)' % npaths[0], {}))
+    return result('J5', 'variant %d, %d instructions per program' % (variant, case['len']), q, paths=npaths[0], detail='%d paths; programs %s' % (npaths[0], [[i_[0] for i_ in p_[0]] for p_ in plans][:3]))
+
+LEMMAS['J5'] = dict(jobs=lambda ctx: [dict(variant=v, len=(2 if ctx['tier'] == 'quick' else 4)) for v in (range(3) if ctx['tier'] == 'quick' else range(14))], run=run_J5, units=['jitlib'], asm=True,
+    functions=['randomx_dataset_init (assembly)', 'randomx_sshash_init + program_sshash_constants.inc', 'program_sshash_load / _prefetch', 'JitCompilerX86::generateSuperscalarHash', 'generateSuperscalarCode', 'generateDatasetInitCode'],
+    doc='the compiled dataset initialiser end to end under x86sem: for a symbolic cache, symbolic start item and 1-2 items, the routine writes exactly the spec 7.3 items (constants, 8 x (program, XOR with cache line (register mod lines)), address register hand-over) at memory+64*item, nothing else; callee-saved registers and rsp restored',
+    bound='8 programs of 2 (quick) / 4 instructions drawn round-robin from the 14 kinds (3 / 14 variants so that every kind and every address register occurs), imm32/mod/reciprocals symbolic; item ranges of 1 and 2 items (the loop body is range independent)',
+    symbolic='cache contents, start item, immediates, mod bytes, reciprocal values, callee-saved registers, stack', stubs=['x86sem', 'mmap := ghost heap'],
+    outside='programs longer than 4 instructions (S4 proves each instruction separately; the stitching per program is size independent)')
